@@ -271,6 +271,45 @@ func effectSignatureD(p *packages.Package, body *ast.BlockStmt, expanding map[*a
 	return strings.Join(parts, " ")
 }
 
+// effectsCovered: the effects of a loop body are covered by the signature an entry was reasoned about: the same
+// callees, and no store beyond the tabled ones except into scalar locals of the enclosing function (a running value
+// such as a minimum kept in a local instead of being re-read from the map it is stored to).
+func effectsCovered(tabled, sig string) bool {
+	if tabled == sig {
+		return true
+	}
+	parse := func(t string) (calls string, writes map[string]bool) {
+		writes = map[string]bool{}
+		for _, part := range strings.Fields(t) {
+			switch {
+			case strings.HasPrefix(part, "calls="):
+				calls = strings.TrimPrefix(part, "calls=")
+			case strings.HasPrefix(part, "writes="):
+				for _, w := range strings.Split(strings.TrimPrefix(part, "writes="), ",") {
+					writes[w] = true
+				}
+			}
+		}
+		return
+	}
+	tc, tw := parse(tabled)
+	sc, sw := parse(sig)
+	if tc != sc {
+		return false
+	}
+	for w := range sw {
+		if tw[w] {
+			continue
+		}
+		switch w {
+		case "<int>", "<bool>", "<string>":
+			continue
+		}
+		return false
+	}
+	return true
+}
+
 // classifyRange tries the automatic order-insensitive classes. It returns the class or "" with a reason.
 func classifyRange(p *packages.Package, site rangeSite) (class string, why string) {
 	rs := site.Stmt
@@ -739,7 +778,7 @@ func C19(c *Ctx) {
 	// table entries whose own key names a loop with exactly the tabled effects keep that loop
 	exactKeys := map[string]bool{}
 	for _, s := range sites {
-		if rs, ok := orderReasons[s.Key]; ok && rs.effects == effectSignature(s.Pkg, s.Stmt.Body) {
+		if rs, ok := orderReasons[s.Key]; ok && effectsCovered(rs.effects, effectSignature(s.Pkg, s.Stmt.Body)) {
 			exactKeys[s.Key] = true
 		}
 	}
@@ -747,7 +786,7 @@ func C19(c *Ctx) {
 		seen[s.Key] = true
 		construct := "G." + s.Key
 		rs, ok := orderReasons[s.Key]
-		if ok && rs.effects != effectSignature(s.Pkg, s.Stmt.Body) {
+		if ok && !effectsCovered(rs.effects, effectSignature(s.Pkg, s.Stmt.Body)) {
 			// the ordinal now names another loop of the function (a loop before it was added or removed): look the
 			// loop up by what it does instead
 			ok = false
@@ -772,7 +811,7 @@ func C19(c *Ctx) {
 		}
 		if ok {
 			sig := effectSignature(s.Pkg, s.Stmt.Body)
-			if sig == rs.effects {
+			if effectsCovered(rs.effects, sig) {
 				r.Ok("C19-a", construct, "", g.Where(s.Pos), "tabled: "+rs.reason)
 			} else {
 				r.Bad("C19-a", construct, "", g.Where(s.Pos), "tabled as order-insensitive for the effect signature ["+rs.effects+"] but the body now has ["+sig+"]: the argument no longer covers it")
